@@ -24,7 +24,7 @@ RULE = ("guided random schedules of the mailbox World (profiles: set/allocate/in
 
 
 def cases(rng, tier):
-    n = 60 if tier == "quick" else 1500
+    n = 110 if tier == "quick" else 1500
     out = []
     # corpus: one short run of every profile
     for i, p in enumerate(mc.PROFILES):
